@@ -61,6 +61,7 @@ class _Canon(ast.NodeTransformer):
     f(b=.., a=..)       -> keywords sorted by name (**kw last)
     pass                -> removed from non-empty blocks
     L.acquire(); try: B finally: L.release()   ->   with L: B   (L a lock/condition)
+    dict(a=x, **m) -> {'a': x, **m};   f(**{'a': x, **m}) -> f(a=x, **m)
     if c: A(always leaves the block) else: B   ->   if c: A ; B"""
 
     def visit_Assign(self, node):
@@ -87,6 +88,21 @@ class _Canon(ast.NodeTransformer):
 
     def visit_Call(self, node):
         self.generic_visit(node)
+        # dict(a=x, **m)  ->  {'a': x, **m}
+        if isinstance(node.func, ast.Name) and node.func.id == 'dict' and not node.args and node.keywords:
+            return ast.copy_location(ast.Dict(keys=[ast.Constant(value=k.arg) if k.arg is not None else None for k in node.keywords],
+                                              values=[k.value for k in node.keywords]), node)
+        # f(**{'a': x, **m})  ->  f(a=x, **m)
+        if any(k.arg is None and isinstance(k.value, ast.Dict) for k in node.keywords):
+            kws = []
+            for k in node.keywords:
+                if k.arg is None and isinstance(k.value, ast.Dict) and all(
+                        dk is None or (isinstance(dk, ast.Constant) and isinstance(dk.value, str) and dk.value.isidentifier()) for dk in k.value.keys):
+                    for dk, dv in zip(k.value.keys, k.value.values):
+                        kws.append(ast.keyword(arg=dk.value if dk is not None else None, value=dv))
+                else:
+                    kws.append(k)
+            node.keywords = kws
         if len(node.keywords) > 1:
             named = [k for k in node.keywords if k.arg is not None]
             star = [k for k in node.keywords if k.arg is None]
@@ -133,6 +149,140 @@ class _Canon(ast.NodeTransformer):
         return node
 
 
+class _ForwardSubst:
+    """t = e ; <next statement using t exactly once as an argument>  ->  <next statement with e in place of t>
+    for constructor-like e only (dict/list/tuple display, dict(...), a class constructor call,
+    a ....submit(...) call) and a local t stored once and loaded once in the whole function (not
+    captured by a nested scope), when the use is an argument / keyword value / display element
+    evaluated unconditionally in the immediately following simple statement and everything
+    evaluated before it there is a plain name/attribute/constant load (evaluation order of effects
+    unchanged).  Brings `kwargs = {...}; task = T(main_kwargs=kwargs); f = submit(ex, task);
+    fs.append(f)` to the nested one-expression spelling the package uses."""
+
+    def run(self, tree):
+        for fn in [n for n in ast.walk(tree) if isinstance(n, (ast.FunctionDef, ast.AsyncFunctionDef))]:
+            self._function(fn)
+        return tree
+
+    @staticmethod
+    def _ctor_like(e):
+        if isinstance(e, (ast.Dict, ast.List, ast.Tuple)):
+            return True
+        if isinstance(e, ast.Call):
+            if isinstance(e.func, ast.Name) and (e.func.id == 'dict' or e.func.id[:1].isupper()):
+                return True
+            if isinstance(e.func, ast.Attribute) and e.func.attr == 'submit':
+                return True
+        return False
+
+    def _function(self, fn):
+        loads, stores, banned = {}, {}, set()
+        a = fn.args
+        for x in a.posonlyargs + a.args + a.kwonlyargs + ([a.vararg] if a.vararg else []) + ([a.kwarg] if a.kwarg else []):
+            banned.add(x.arg)
+
+        def scan(node):
+            for ch in ast.iter_child_nodes(node):
+                if isinstance(ch, (ast.FunctionDef, ast.AsyncFunctionDef, ast.Lambda, ast.ClassDef, ast.ListComp, ast.SetComp, ast.DictComp, ast.GeneratorExp)):
+                    for n in ast.walk(ch):
+                        if isinstance(n, ast.Name):
+                            banned.add(n.id)
+                    continue
+                if isinstance(ch, (ast.Global, ast.Nonlocal)):
+                    banned.update(ch.names)
+                if isinstance(ch, ast.Name):
+                    d = loads if isinstance(ch.ctx, ast.Load) else stores
+                    d[ch.id] = d.get(ch.id, 0) + 1
+                if isinstance(ch, ast.ExceptHandler) and ch.name:
+                    banned.add(ch.name)
+                scan(ch)
+        scan(fn)
+        self.ok = {n for n in stores if stores[n] == 1 and loads.get(n, 0) == 1 and n not in banned}
+        if self.ok:
+            self._blocks(fn)
+
+    def _blocks(self, node):
+        for f in ('body', 'orelse', 'finalbody'):
+            b = getattr(node, f, None)
+            if isinstance(b, list) and b and isinstance(b[0], ast.stmt):
+                for st in b:
+                    if not isinstance(st, (ast.FunctionDef, ast.AsyncFunctionDef, ast.ClassDef)):
+                        self._blocks(st)
+                setattr(node, f, self._block(b))
+        if isinstance(node, ast.Try):
+            for h in node.handlers:
+                self._blocks(h)
+
+    def _block(self, stmts):
+        stmts = list(stmts)
+        i = 0
+        while i + 1 < len(stmts):
+            s, nxt = stmts[i], stmts[i + 1]
+            if isinstance(s, ast.Assign) and len(s.targets) == 1 and isinstance(s.targets[0], ast.Name) and s.targets[0].id in self.ok \
+                    and self._ctor_like(s.value) and isinstance(nxt, (ast.Expr, ast.Assign, ast.Return)) and self._subst(nxt, s.targets[0].id, s.value):
+                del stmts[i]
+                i = max(i - 1, 0)
+                continue
+            i += 1
+        return stmts
+
+    def _subst(self, stmt, name, value):
+        """replace the single unconditional argument-position use of name in stmt; False if not applicable"""
+        state = {'done': False, 'blocked': False}
+
+        def ev(node, parent, field, idx, argpos):
+            if state['done'] or state['blocked']:
+                return
+            if isinstance(node, ast.Name):
+                if node.id == name and isinstance(node.ctx, ast.Load):
+                    if not argpos:
+                        state['blocked'] = True
+                        return
+                    if idx is None:
+                        setattr(parent, field, value)
+                    else:
+                        getattr(parent, field)[idx] = value
+                    state['done'] = True
+                return
+            if isinstance(node, ast.Constant):
+                return
+            if isinstance(node, ast.Attribute):
+                ev(node.value, node, 'value', None, False)
+                return
+            if isinstance(node, ast.Call):
+                ev(node.func, node, 'func', None, False)
+                for k, x in enumerate(node.args):
+                    ev(x, node, 'args', k, True)
+                for kw in node.keywords:
+                    ev(kw.value, kw, 'value', None, True)
+                if not state['done']:
+                    state['blocked'] = True  # the call itself runs before anything later
+                return
+            if isinstance(node, (ast.List, ast.Tuple, ast.Set)):
+                for k, x in enumerate(node.elts):
+                    ev(x, node, 'elts', k, True)
+                return
+            if isinstance(node, ast.Dict):
+                for k in range(len(node.keys)):
+                    if node.keys[k] is not None:
+                        ev(node.keys[k], node, 'keys', k, False)
+                    ev(node.values[k], node, 'values', k, node.keys[k] is not None)
+                return
+            state['blocked'] = True
+
+        if isinstance(stmt, ast.Expr):
+            ev(stmt.value, stmt, 'value', None, False)
+        elif isinstance(stmt, ast.Return):
+            if stmt.value is None:
+                return False
+            ev(stmt.value, stmt, 'value', None, False)
+        elif isinstance(stmt, ast.Assign):
+            if not all(isinstance(t, ast.Name) for t in stmt.targets):
+                return False
+            ev(stmt.value, stmt, 'value', None, False)
+        return state['done']
+
+
 def _as_load(t):
     import copy
     t2 = copy.deepcopy(t)
@@ -143,6 +293,8 @@ def _as_load(t):
 
 
 def canonicalise(tree):
+    if isinstance(tree, ast.Module):
+        tree = _ForwardSubst().run(tree)
     tree = _Canon().visit(tree)
     ast.fix_missing_locations(tree)
     return tree
